@@ -584,3 +584,34 @@ func c16DuplicateTransform(c *cConfig, k int) bool {
 	}
 	return walk(&c.Transforms)
 }
+
+// c16HolderCorpus: minimal members of the families: the smallest node of each structure for every class, directly
+// and at the first site of the class in the minimal configuration.
+func c16HolderCorpus() []string {
+	var out []string
+	minimal := []string{`{}`, `[]`, `foo`, `[type]`, `[type, unescape]`, `*c16emp`, `&c16x {}`, `!!str {}`, `{type}`, `{type: {}}`, `{key: log}`,
+		`{type: if, match: {log: x}, then: [{}]}`, `{type: block, steps: [[type]]}`, `~`, `*c16nul`, `{type: unescape, <<: *c16keylog}`}
+	classes := c16ComponentClasses(c16Minimal("/tmp/c16-corpus"))
+	for i := range c16Classes {
+		cl := &c16Classes[i]
+		first := 0
+		for at, cn := range classes {
+			if cn == cl.name {
+				first = at + 1
+				break
+			}
+		}
+		for _, sh := range minimal {
+			toks, ok := c16HolderTokens(sh, cl)
+			if !ok {
+				continue
+			}
+			out = append(out, (&Case{Kind: 2, S: toks}).Line())
+			res, _ := c16HolderDirect(cl, sh)
+			if first > 0 && strings.HasPrefix(res, "herr") {
+				out = append(out, (&Case{Kind: 3, S: toks, Z: []int64{1, int64(first)}}).Line())
+			}
+		}
+	}
+	return out
+}
